@@ -659,3 +659,24 @@ Proof.
     + intros [x [Hx Hin]]. exists (xfooter (snd x)). split; [apply (in_map (fun x : N * outcome => xfooter (snd x))); exact Hx | apply years_sorted_in; exact Hin].
     + intros [g [Hg Hin]]. apply in_map_iff in Hg as [x [<- Hx]]. exists x. split; [exact Hx | apply years_sorted_in; exact Hin].
 Qed.
+
+(* ================================================================ G. rust_decimal rounding: additivity is not a theorem *)
+(* three securities whose own totals are 1000000000000000000000000000.5, 0.04
+   and 0.04: the aggregate of all three (added in this order, each sum rounded
+   to 28-29 significant digits) is ...000.5; the aggregates of the first alone
+   and of the other two are ...000.5 and 0.08, whose sum is ...000.58 (exactly)
+   or ...000.6 (rounded) *)
+Definition dec_x : gains := {| g_total := Qcfrac 10000000000000000000000000005 10; g_years := [] |}.
+Definition dec_e : gains := {| g_total := Qcfrac 4 100; g_years := [] |}.
+Theorem aggregate_additive_dec_refuted :
+  exists la lb gi ga gb,
+    aggregate dec gains0 (la ++ lb) = Ok gi /\ aggregate dec gains0 la = Ok ga /\
+    aggregate dec gains0 lb = Ok gb /\
+    g_total gi <> g_total ga + g_total gb /\ a_add dec (g_total ga) (g_total gb) <> Ok (g_total gi).
+Proof.
+  exists [dec_x], [dec_e; dec_e]. do 3 eexists.
+  split; [vm_compute; reflexivity|]. split; [vm_compute; reflexivity|]. split; [vm_compute; reflexivity|].
+  split.
+  - intros H. apply (f_equal (fun q : Qc => this q)) in H. vm_compute in H. discriminate H.
+  - intros H. vm_compute in H. discriminate H.
+Qed.
